@@ -10,6 +10,7 @@ package protocol
 // never decreases.
 //@ func (*ViewStates).UpdateHighQC property C07
 //@   requires vswf(s) && hotstuff.genesisBlock != nil && cert.qcok(s.auth, qc)
+//@   requires [collision-resistance] blockchain.hashdet()
 //@   ensures [monotone] s.highQC.view >= old(s.highQC.view)
 //@   ensures [updated] result0 ==> s.highQC == qc && qc.view > old(s.highQC.view)
 //@   ensures [unchanged] !result0 ==> s.highQC == old(s.highQC)
